@@ -579,3 +579,182 @@ pub fn gen_ltxt(rng: &mut Rng, w: &mut CaseWriter, n_mut: usize) {
         push(w, ver, ns, &t);
     }
 }
+
+// -------------------------------------------------------------------------------------------
+// multi: several records written into one file and read back through ONE reused RecordBuf, through
+// the record_bufs() iterator and through ONE reused lazy Record; every record must equal what a
+// fresh buffer gives for its line (and what the single-line model gives: the obs)
+//   multi ver infodefs fmtdefs ns rec^rec^... ftab
+//   obs = per record hex(line)|eager|lazy (WErr when the writer rejects it), joined by '^'
+
+fn fresh_eager(header: &vcf::Header, line: &str) -> Option<Canon> {
+    match eager_text(header, format!("{line}\n").as_bytes()) {
+        R::Ok(rb) => Some(canon(&rb)),
+        _ => None,
+    }
+}
+
+fn fresh_lazy(header: &vcf::Header, line: &str) -> Option<Canon> {
+    match lazy_text(header, format!("{line}\n").as_bytes()) {
+        R::Ok((_, c)) => Some(c),
+        _ => None,
+    }
+}
+
+pub fn run_multi(c: &Case) -> Obs {
+    let header = match header_of(c) {
+        Ok(h) => h,
+        Err(e) => return Obs::fail("-", "multi-header-unparsable", format!("{e}")),
+    };
+    let recs: Vec<Canon> = c.args[4].split('^').map(rec_parse).collect();
+    let mut lines: Vec<Option<String>> = vec![];
+    for r in &recs {
+        match write_line(&header, &build(r)) {
+            R::Ok(l) => lines.push(Some(l)),
+            R::Err => lines.push(None),
+            R::Panic => return Obs::fail("Panic", "multi-writer-panic", &c.args[4]),
+        }
+    }
+    let written: Vec<&String> = lines.iter().flatten().collect();
+    let mut text = String::new();
+    for l in &written {
+        text.push_str(l);
+        text.push('\n');
+    }
+    // one RecordBuf for the whole file
+    let reused: R<Vec<Option<Canon>>> = g(|| {
+        let mut r = vcf::io::Reader::new(text.as_bytes());
+        let mut rb = RecordBuf::default();
+        let mut out = vec![];
+        for _ in 0..written.len() {
+            match r.read_record_buf(&header, &mut rb) {
+                Ok(0) => break,
+                Ok(_) => out.push(Some(canon(&rb))),
+                Err(_) => out.push(None),
+            }
+        }
+        Ok(out)
+    });
+    let iter: R<Vec<Option<Canon>>> = g(|| {
+        let mut r = vcf::io::Reader::new(text.as_bytes());
+        Ok(r.record_bufs(&header).map(|x| x.ok().map(|rb| canon(&rb))).collect())
+    });
+    let lazy: R<Vec<Option<Canon>>> = g(|| {
+        let mut r = vcf::io::Reader::new(text.as_bytes());
+        let mut rec = vcf::Record::default();
+        let mut out = vec![];
+        for _ in 0..written.len() {
+            match r.read_record(&mut rec) {
+                Ok(0) => break,
+                Ok(_) => out.push(canon_lazy(&header, &rec).ok()),
+                Err(_) => out.push(None),
+            }
+        }
+        Ok(out)
+    });
+    let (R::Ok(reused), R::Ok(iter), R::Ok(lazy)) = (reused, iter, lazy) else {
+        return Obs::fail("Panic", "multi-reader-panic", text.replace('\n', "\\n"));
+    };
+    let show = |o: &Option<Canon>| o.as_ref().map(rec_str).unwrap_or("Err".into());
+    let mut obs: Vec<String> = vec![];
+    let mut verdict: Result<(), (String, String)> = Ok(());
+    let mut j = 0;
+    for l in &lines {
+        let Some(l) = l else { obs.push("WErr".into()); continue };
+        let (re, rl) = (reused.get(j).cloned().flatten(), lazy.get(j).cloned().flatten());
+        obs.push(format!("{}|{}|{}", hex(l.as_bytes()), show(&re), show(&rl)));
+        if verdict.is_ok() {
+            let (fe, fl) = (fresh_eager(&header, l), fresh_lazy(&header, l));
+            let it = iter.get(j).cloned().flatten();
+            let diff = |a: &Option<Canon>, b: &Option<Canon>| match (a, b) {
+                (Some(x), Some(y)) => first_diff(x, y),
+                (None, None) => None,
+                _ => Some("outcome"),
+            };
+            if let Some(f) = diff(&re, &fe) {
+                verdict = Err((format!("eager-reused-recordbuf-keeps-previous-{f}"), format!("record {j} of {} :: reused {} fresh {}", text.replace('\n', "\\n"), show(&re), show(&fe))));
+            } else if let Some(f) = diff(&it, &fe) {
+                verdict = Err((format!("record-bufs-iterator-keeps-previous-{f}"), format!("record {j} of {} :: iterator {} fresh {}", text.replace('\n', "\\n"), show(&it), show(&fe))));
+            } else if let Some(f) = diff(&rl, &fl) {
+                verdict = Err((format!("lazy-reused-record-keeps-previous-{f}"), format!("record {j} of {} :: reused {} fresh {}", text.replace('\n', "\\n"), show(&rl), show(&fl))));
+            }
+        }
+        j += 1;
+    }
+    Obs::ok(obs.join("^"), written.len() > 1).with_verdict(verdict)
+}
+
+pub fn gen_multi(rng: &mut Rng, ver: &str, w: &mut CaseWriter) {
+    let infos: Vec<(String, String, String)> = vec![("I0".into(), "1".into(), "I".into()), ("I1".into(), ".".into(), "S".into()), ("I2".into(), "0".into(), "B".into())];
+    let formats = vec![
+        FDef { key: "GT".into(), num: "1".into(), ty: "S".into() },
+        FDef { key: "GQ".into(), num: "1".into(), ty: "I".into() },
+        FDef { key: "F2".into(), num: ".".into(), ty: rng.pick(&["I", "S", "C"]).to_string() },
+    ];
+    let fmts3: Vec<(String, String, String)> = formats.iter().map(|d| (d.key.clone(), d.num.clone(), d.ty.clone())).collect();
+    let ns = rng.range(1, 3) as usize;
+    let nrec = rng.range(2, 5) as usize;
+    let mut recs: Vec<Canon> = vec![];
+    for i in 0..nrec {
+        // records alternate between "rich" and "poor" in every column, so that anything a reused
+        // buffer fails to clear shows up in the next record
+        let rich = (i % 2 == 0) ^ rng.chance(1, 5);
+        let mut c = Canon {
+            chrom: rng.pick(CHROMS_OK).to_string(),
+            pos: if rich { rng.range(1, 100000) as usize } else { *rng.pick(&[0usize, 1, 7]) },
+            ids: if rich { distinct(rng, 2, IDS_OK) } else { vec![] },
+            refb: if rich { "ACGT".into() } else { "N".into() },
+            alts: if rich { vec!["<DEL>".into(), "A".into()] } else { vec![] },
+            qual: if rich { Some(gen_float(rng, false)) } else { None },
+            filters: if rich { distinct(rng, 2, FILTERS_OK) } else if rng.chance(1, 2) { vec!["PASS".into()] } else { vec![] },
+            info: vec![],
+            keys: vec![],
+            samples: vec![],
+        };
+        if rich {
+            c.info.push(("I0".into(), Some(V::Int(rng.range(0, 99) as i32))));
+            c.info.push(("I1".into(), Some(V::AS(vec![Some("a".into()), None]))));
+            c.info.push(("I2".into(), Some(V::Flag)));
+        } else if rng.chance(1, 2) {
+            c.info.push(("I2".into(), Some(V::Flag)));
+        }
+        // FORMAT: all keys / a prefix / none
+        let nk = if rich { 3 } else { *rng.pick(&[0usize, 1, 2, 3]) };
+        let keep: Vec<FDef> = formats.iter().take(nk).cloned().collect();
+        c.keys = keep.iter().map(|d| d.key.clone()).collect();
+        c.samples = (0..ns)
+            .map(|_| {
+                if nk == 0 {
+                    return vec![];
+                }
+                let mode = if rich { 3 } else { rng.below(4) };
+                let mut vals = gen_sample_vals(rng, ver, &keep, false, false, false);
+                for v in vals.iter_mut() {
+                    if has_nonascii_char(v) || matches!(v, Some(V::Str(s)) if s.is_empty()) {
+                        *v = None;
+                    }
+                }
+                match mode {
+                    0 => vec![],                                    // written "."
+                    1 => vec![None],                                // written "."
+                    2 => { vals.truncate(1); vals }                 // fewer values
+                    _ => vals,
+                }
+            })
+            .collect();
+        recs.push(c);
+    }
+    let mut all: Vec<OV> = vec![];
+    for c in &recs {
+        if let Some(q) = c.qual {
+            all.push(Some(V::Float(q)));
+        }
+        for r in &c.samples {
+            all.extend(r.iter().cloned());
+        }
+    }
+    w.push(
+        "multi",
+        vec![ver.into(), defs_str(&infos), defs_str(&fmts3), ns.to_string(), recs.iter().map(rec_str).collect::<Vec<_>>().join("^"), ftab(&all)],
+    );
+}
